@@ -103,6 +103,8 @@ pub struct MCellT {
     pub cuts: Vec<(usize, usize, usize, usize)>,            // (layer, track, cross layer, cross track)
     pub assigns: Vec<(String, (usize, usize, usize, usize))>, // net, (layer, track, cross layer, cross track)
     pub insts: Vec<MInstT>,
+    /// some cut request lies on a stretch of track an instance blocks (only the unrealisable-requests sub-check)
+    pub cut_on_block: bool,
 }
 #[derive(Clone, Debug, PartialEq, Eq, Hash)]
 pub struct MLibT {
@@ -232,7 +234,7 @@ fn gen_cell(src: &mut Src, st: &MStack, name: &str, lower: &[MCellT], max_size: 
             size.1 += 1;
         }
     }
-    let mut cell = MCellT { name: name.to_string(), size, metals, cuts: vec![], assigns: vec![], insts: vec![] };
+    let mut cell = MCellT { name: name.to_string(), size, metals, cuts: vec![], assigns: vec![], insts: vec![], cut_on_block: false };
     if bad_size || metals == 0 {
         return cell;
     }
@@ -286,6 +288,18 @@ fn gen_cell(src: &mut Src, st: &MStack, name: &str, lower: &[MCellT], max_size: 
             p1 > k0 && p0 < k1 && along > a0 - margin && along < a1 + margin
         })
     };
+    // ... or well inside one (at least `margin` from both of its ends), on a period it blocks?
+    let deep_in_block = |l: usize, along: i64, across_period: i64, margin: i64| -> bool {
+        let m = &st.metals[l];
+        blocked.iter().any(|b| {
+            if b.4 <= l {
+                return false;
+            }
+            let (a0, a1, p0, p1) = if m.horiz { (b.0 * st.prim.0, b.2 * st.prim.0, b.1 * st.prim.1, b.3 * st.prim.1) } else { (b.1 * st.prim.1, b.3 * st.prim.1, b.0 * st.prim.0, b.2 * st.prim.0) };
+            let (k0, k1) = (across_period * m.pitch(), (across_period + 1) * m.pitch());
+            p1 > k0 && p0 < k1 && along >= a0 + margin && along <= a1 - margin
+        })
+    };
     // cuts and assignments
     let mut used: Vec<(usize, usize, i64, i64)> = vec![]; // (layer, track, lo, hi) spans taken on a track
     let mut track_net: BTreeMap<(usize, usize), String> = BTreeMap::new();
@@ -324,7 +338,12 @@ fn gen_cell(src: &mut Src, st: &MStack, name: &str, lower: &[MCellT], max_size: 
             if track_net.get(&(l, t)).map(|n| *n != net).unwrap_or(false) || track_net.get(&(cl, c)).map(|n| *n != net).unwrap_or(false) {
                 continue;
             }
-            if under_block(l, along_l, kl, reach) || under_block(cl, along_c, kc, reach) {
+            // A crossing over an instance (a pin on top of it) is a legitimate place for an assignment: the via
+            // is drawn, the blocked track has no wire there to carry the net. Crossings near a blockage's ends
+            // are left out (which side of the boundary the net lands on is not specified).
+            let over = |l: usize, along: i64, k: i64| deep_in_block(l, along, k, reach);
+            let clear = |l: usize, along: i64, k: i64| !under_block(l, along, k, reach);
+            if !((clear(l, along_l, kl) || over(l, along_l, kl)) && (clear(cl, along_c, kc) || over(cl, along_c, kc))) {
                 continue;
             }
             if !LOOSE_OVER_ASSIGN.with(|c| c.get()) && used.iter().any(|u| (u.0 == l && u.1 == t && along_l >= u.2 - reach && along_l <= u.3 + reach) || (u.0 == cl && u.1 == c && along_c >= u.2 - reach && along_c <= u.3 + reach)) {
@@ -345,6 +364,12 @@ fn gen_cell(src: &mut Src, st: &MStack, name: &str, lower: &[MCellT], max_size: 
                 continue;
             }
             if under_block(l, lo, kl, reach) || under_block(l, hi, kl, reach) || under_block(l, along_l, kl, reach) {
+                // loose mode: a cut whose centre lies well inside a blocked stretch is requested now and then;
+                // the track has no wire there to cut, so the compiler has to refuse
+                if loose && deep_in_block(l, along_l, kl, 1) && src.prob(1, 3) {
+                    cell.cuts.push((l, t, cl, c));
+                    cell.cut_on_block = true;
+                }
                 continue;
             }
             // loose mode: cut requests may run over the outline edge and over other cuts (never over the
@@ -660,6 +685,16 @@ fn oracle(m: &MLibT, ctx: &mut Ctx) -> Result<(), String> {
         ctx.label(&format!("request on a layer without signal tracks: {}", if res.is_ok() { "compiled" } else { "refused" }));
         return Ok(());
     }
+    if m.cells.iter().any(|c| c.cut_on_block) {
+        ctx.label("cut requested on a stretch of track an instance blocks");
+        return match res {
+            Err(_) => {
+                ctx.nontrivial(hash_of(m));
+                Ok(())
+            }
+            Ok(_) => Err(format!("a cut is requested where an instance blocks the track (no wire there to cut), yet compilation succeeded\nstack {:?}\ncells {:?}", m.stack, m.cells)),
+        };
+    }
     let rawlib = match res {
         Err(e) => {
             if bad_size {
@@ -753,7 +788,7 @@ fn literal_libs() -> Vec<(&'static str, MLibT)> {
                 ],
                 vias: vec![(2, 2)],
             },
-            cells: vec![MCellT { name: "top".into(), size: (2, 1), metals: 1, cuts: vec![(0, 0, 1, 0)], assigns: vec![], insts: vec![] }],
+            cells: vec![MCellT { name: "top".into(), size: (2, 1), metals: 1, cuts: vec![(0, 0, 1, 0)], assigns: vec![], insts: vec![], cut_on_block: false }],
         },
     )]
 }
@@ -773,7 +808,7 @@ fn literal_port_on_rails_only_layer(ctx: &mut Ctx) -> Result<(), String> {
     use TT::*;
     let m = MLibT {
         stack: MStack { prim: (120, 120), metals: vec![MMetal { horiz: true, entries: vec![(Gnd, 8), (Gap, 104), (Pwr, 8)], repeat: None, offset: 0, overlap: 0, flip: false, cutsize: 2, m: 1 }], vias: vec![] },
-        cells: vec![MCellT { name: "leaf0".into(), size: (1, 1), metals: 1, cuts: vec![], assigns: vec![], insts: vec![] }],
+        cells: vec![MCellT { name: "leaf0".into(), size: (1, 1), metals: 1, cuts: vec![], assigns: vec![], insts: vec![], cut_on_block: false }],
     };
     ctx.label("literal: abstract edge port on a layer without signal tracks (fixed: 29dd2eb)");
     ctx.nontrivial(hash_of(&m));
